@@ -4,9 +4,14 @@ Tie: hand-written model + correspondence (harness/c17_keyparser.cxx vs lean/Driv
 Oracle part 1 (harness/c17_keyparser.cxx): registry round trip (classes that need external data get small files written by the
 harness) / keyword matching / aliases in arbitrary spellings of alias AND target, incl. the aliases the library registers itself /
 vectorised keys of every type / per-segment lists of projection-data headers, on the implementation.
-Oracle part 2 (harness/c17_fuzz.cxx): KeyParser::parse, read_interfile_image, read_interfile_dynamic_image, read_interfile_PDFS, MultipleDataSetHeader on
-grammar-aware mutations of library-written headers and on the structured "exactly one size-bearing field inconsistent" family,
-under AddressSanitizer + UBSan, with the anchored STIR sources compiled *instrumented* into the harness.
+Part 1 also: Interfile image / multiple-data-set headers with their size-giving keys in ANY order against the Lean model of the
+count-key call-backs (`hdr` ops), and histories of copies / assignments / destructions of a ParsingObject against the Lean heap
+model (`po` ops).
+Oracle part 2 (harness/c17_fuzz.cxx): KeyParser::parse, read_interfile_image, read_interfile_dynamic_image, read_interfile_parametric_image,
+read_interfile_PDFS, MultipleDataSetHeader on grammar-aware mutations of library-written headers, on the structured "exactly one
+size-bearing field inconsistent" family, on library-written headers with their size-giving lines in another order, and copy /
+clone() / assignment histories of registered parsing classes, under AddressSanitizer + UBSan, with the anchored STIR sources
+compiled *instrumented* into the harness.
 Part 2 is runtime evidence, not a theorem."""
 import concurrent.futures, hashlib, os, re, subprocess
 import vlib
@@ -16,7 +21,7 @@ PROP = "C17"
 # STIR sources compiled with the sanitizers into the fuzz harness (they shadow the objects of the plain libraries)
 INSTRUMENTED = ["buildblock/KeyParser.cxx", "buildblock/interfile_keyword_functions.cxx", "buildblock/MultipleDataSetHeader.cxx",
                 "IO/InterfileHeader.cxx", "IO/InterfileHeaderSiemens.cxx", "IO/InterfilePDFSHeaderSPECT.cxx", "IO/interfile.cxx",
-                "buildblock/ProjDataInfo.cxx", "buildblock/Scanner.cxx", "buildblock/ProjDataFromStream.cxx"]
+                "buildblock/ProjDataInfo.cxx", "buildblock/Scanner.cxx", "buildblock/ProjDataFromStream.cxx", "buildblock/ParsingObject.cxx"]
 # Every sanitizer report kills the reader, except signed integer overflow: that one is reported on stderr and the run goes on
 # with the wrapped value, as it does in the un-instrumented library on x86-64.  The property names out-of-bounds access, unbounded
 # allocation and silently accepted inconsistent sizes; an overflow in the arithmetic on absurd header values is judged by what it
@@ -25,7 +30,9 @@ SAN_FLAGS = ["-fsanitize=address,undefined", "-fno-sanitize-recover=all", "-fsan
 
 
 def _cxx_flags(bdir):
-    return ["-std=gnu++17", "-O1", "-g1", "-w", "-DNDEBUG", "-DUCL_STIR_VERIF",
+    # _GLIBCXX_ASSERTIONS: operator[] of std::vector / std::string beyond the end aborts.  (ASan alone misses vector[-1] when the
+    # element is larger than the red zone in front of the buffer: `PET_data_type_values[PET_data_type_index]` with index -1.)
+    return ["-std=gnu++17", "-O1", "-g1", "-w", "-DNDEBUG", "-DUCL_STIR_VERIF", "-D_GLIBCXX_ASSERTIONS",
             "-I", os.path.join(bdir, "src", "include"), "-I", os.path.join(vlib.REPO, "src", "include"),
             "-I", "/usr/include/hdf5/serial", "-I", os.path.join(vlib.VERIF, "harness")] + SAN_FLAGS
 
@@ -124,6 +131,16 @@ def classify(stderr_text, how, target="unknown", text=b""):
             if re.search(pat, m.group(1)):
                 kind = "ubsan-" + name
                 break
+    m = re.search(r"Assertion '([^']*)' failed", stderr_text)
+    if m and kind is None:
+        kind = "glibcxx-assertion-index-out-of-bounds" if "size()" in m.group(1) else "glibcxx-assertion"
+        # Known open class (see known_findings.txt): 'PET data type := <a value that is not in the list>' leaves PET_data_type_index at -1,
+        # and the post_processing of every Interfile header class then reads PET_data_type_values[-1]
+        vals = [l.split(b":=", 1)[1].strip() for l in text.replace(b"\r", b"").split(b"\n")
+                if b":=" in l and re.sub(rb"[ _!\t]+", b" ", l.split(b":=", 1)[0].split(b"[", 1)[0].lower()).strip() == b"pet data type"]
+        allowed = (b"emission", b"transmission", b"blank", b"attenuationcorrection", b"normalisation", b"normalization", b"image")
+        if vals and re.sub(rb"[ _!\t]+", b" ", vals[-1].lower()).strip() not in allowed and "post_processing" in stderr_text:
+            return "oob:PET_data_type_values[PET_data_type_index]:unsupported-value-of-PET-data-type"
     if "VERIF-TIMEOUT" in stderr_text:
         kind = "timeout"
     if kind is None:
@@ -179,7 +196,8 @@ def report_tail(stderr_text):
     i = stderr_text.find("runtime error")
     j = stderr_text.find("ERROR: AddressSanitizer")
     k = stderr_text.find("VERIF-TIMEOUT")
-    pos = [p for p in (i, j, k) if p >= 0]
+    a = stderr_text.find("Assertion '")
+    pos = [p for p in (i, j, k, a) if p >= 0]
     start = max(0, min(pos) - 200) if pos else max(0, len(stderr_text) - 2500)
     return stderr_text[start:start + 3500]
 
@@ -200,6 +218,7 @@ def run_fuzz(chk, tier):
         return {}
     verdicts, per_target, killed_by_key, inconsistent_by_key, done = {}, {}, {}, {}, None
     overflow_reports, structured = 0, 0
+    order_family, copy_hist, n_order, n_copy = {}, {}, 0, 0
     for l in open(resfile, errors="replace"):
         t = l.split()
         if not t:
@@ -212,6 +231,12 @@ def run_fuzz(chk, tier):
             per_target[t[1]] = per_target.get(t[1], 0) + 1
             if "+signed-overflow" in t:
                 overflow_reports += 1
+            if "order-family" in t:
+                k = "%s:%s" % (t[1], t[3])
+                order_family[k] = order_family.get(k, 0) + 1
+            if t[1] == "copy" and len(t) > 5:
+                k = "%s | %s" % (t[5], " ".join(t[3:5]))
+                copy_hist[k] = copy_hist.get(k, 0) + 1
             if t[3] == "inconsistent":
                 msg = " ".join(t[4:]).split(" | ")[0].replace(" +signed-overflow", "")
                 key = inconsistent_key(t[1], msg)
@@ -228,8 +253,13 @@ def run_fuzz(chk, tier):
             done = l.strip()
             m = re.search(r"structured=(\d+)", l)
             structured = int(m.group(1)) if m else 0
+            m = re.search(r"order=(\d+) copy=(\d+)", l)
+            n_order, n_copy = (int(m.group(1)), int(m.group(2))) if m else (0, 0)
     if done is None:
         chk.violation("fuzz-incomplete", "C17 fuzz harness did not finish", r.stdout[-2000:], found_input=False)
+    elif n_order < 100 or n_copy < 100 or not any(k.endswith(":accepted") for k in order_family) or not any("accepted" in k for k in copy_hist):
+        chk.violation("fuzz-family-missing", "C17 fuzz harness: the key-order family (%d inputs) or the copy histories (%d) did not run, or none was accepted" % (n_order, n_copy),
+                      done, found_input=False)
     for key, cases in sorted(killed_by_key.items()):
         target, inputfile, err = min(cases, key=lambda c: os.path.getsize(c[1]) if os.path.exists(c[1]) else 1 << 30)
         text = open(inputfile, "rb").read() if os.path.exists(inputfile) else b""
@@ -250,6 +280,8 @@ def run_fuzz(chk, tier):
                 fuzz_inconsistent_classes={k: len(v) for k, v in inconsistent_by_key.items()},
                 fuzz_signed_overflow_reports=overflow_reports,
                 fuzz_structured_one_field_inconsistent_inputs=structured,
+                fuzz_key_order_inputs=n_order, fuzz_key_order_verdicts=order_family,
+                fuzz_copy_histories=n_copy, fuzz_copy_history_classes=copy_hist,
                 fuzz_instrumented_sources=INSTRUMENTED)
 
 
@@ -334,7 +366,16 @@ def main(tier, replay):
         "wrapping atoi values / decorated; `pdfsseg`: real InterfilePDFSHeader::parse on the library's projection-data header with 'matrix size [4]', the axial-positions "
         "list and the two ring-difference lists replaced (consistent, exactly one list shorter/longer, a list absent, no segment 0) against the model of the "
         "per-segment checks (exact, except that the code may still error() in the ProjDataInfo constructor where the model accepts); "
-        "distinct = distinct operation lines. Oracle on the implementation: parameter_info->parse->parameter_info for every class of 19 registry roots "
+        "`hdr image` / `hdr multi`: real InterfileImageHeader / MultipleDataSetHeader parse of generated single, dynamic and parametric image headers (integer values, "
+        "occasional planted faults) with the size-giving lines (number of dimensions / time frames / energy windows / image data types, matrix size, labels, voxel sizes, "
+        "first pixel offsets, per-frame and per-window keys, image scaling factors, data offsets, index nesting level, data type descriptions; sometimes 'type of data') "
+        "in the writer's order and re-ordered (a count key behind the lines it sizes, count keys swapped, all counts first / last, one table line moved, shuffled), answer = "
+        "rej | err | every modelled member of the header object, against the Lean model of the count-key call-backs and post_processing; "
+        "`po`: histories of new / copy constructor / operator= / parse / parameter_info / delete on a concrete ParsingObject (real base class) against the Lean heap model; "
+        "distinct = distinct operation lines. Oracle on the implementation: accepted image header => every table of the header object has the announced length "
+        "(dimensions, data sets = time frames x data types, frames, windows, data types, one scaling factor per plane); re-ordered header accepted => same members as in the "
+        "writer's order (per-plane lists of scaling factors in front of a count key: oracle only); a fresh copy prints the values it was copied with, no operation on one "
+        "object changes what another prints, the text of a copy parses back to the same text;  parameter_info->parse->parameter_info for every class of 19 registry roots "
         "(enumerated at run time, each in a child process; classes that need external data are constructed from small projection-data / image / frame-definition / "
         "plasma files written by the harness; also after accepted numeric value replacements), case/white-space-insensitive keyword matching, "
         "alias resolution for random spellings of registered key, named target, alias and line, the aliases registered in the library sources "
@@ -350,6 +391,12 @@ def main(tier, replay):
         "number of dimensions / image matrix sizes (list, empty, missing, larger than the data file) / image scaling factors / per-frame and per-energy-window keys beyond "
         "the declared count / number of time frames of a dynamic image vs its per-frame keys and the data in the file / data offset of a frame beyond the file / "
         "SPECT radii vs number of projections: must be rejected; consistent variants and the library's own headers: must be accepted); "
+        "key-order family (fuzz_key_order_*): the library's own image (also with energy windows and a time frame), dynamic image, PARAMETRIC image (read_interfile_parametric_image) "
+        "and PET projection-data headers with their size-giving lines re-ordered: rejected, or the header object has every table at the announced length, its size-giving "
+        "members equal those of the writer's order, and the reader returns the same voxel data (checksum) as for the writer's order; "
+        "copy histories (fuzz_copy_*): 17 concrete data processors / priors / projector pairs / forward projector / bin normalisation via copy constructor and operator=, every "
+        "registered Shape3D, BackProjectorByBin and ProjMatrixByBin via clone(): object built from its own text with other numbers and printed -> copied -> original re-parsed with "
+        "other numbers / destroyed / kept -> the copy prints the values it was copied with, parsing into the copy leaves the original alone, the copy's text parses back to itself; "
         "verdict per input: rejected / accepted and consistent with the data-file size and (for PET projection data and images, when an independent strict scan of the "
         "header text is unambiguous) with every size and list the header gives / inconsistent / killed (sanitizer report, crash, allocation > 256 MB, time-out).",
         extra=dict(registered_classes=classes, alias_sites=alias_sites,
@@ -370,6 +417,14 @@ def main(tier, replay):
         "aliases: add_alias_key call sites with non-literal arguments or in classes that are not compiled / have no driver (CListModeDataROOT: HAVE_CERN_ROOT off) are "
         "listed in coverage.alias_sites, not driven",
         "per-segment model: sums of ring differences are small (no int overflow, exact as float); the geometry checks of the ProjDataInfo constructors are not modelled",
+        "`hdr` ops: float-valued keys carry integer values (the model keeps them as integers), data offsets are small non-negative, 'version of keys' is never STIR3.0, keys the "
+        "model does not have (originating system, radionuclide, patient position, dates, bed position, calibration factor, quantification units) do not occur; the projection-data "
+        "header with re-ordered keys is covered by the part-2 oracle only (no model of find_storage_order under re-ordering); 'type of data' keeps its place in the value-equality "
+        "oracle (keys that exist only after 'type of data := PET' are unknown keywords before it: warning only, compared with the model but not with the writer's order)",
+        "`po` model: the KeyParser pointers of one parser are abstracted to ONE owner object (initialise_keymap registers all keys with members of `this`); nested parsing objects "
+        "(shared_ptr members, shared between a copy and its original) are covered by the part-2 histories only; Scanner is not a ParsingObject (no copy history)",
+        "copy histories: classes whose clone() is not implemented (SPECT UB matrices) or that need a matrix file are listed in coverage.fuzz_copy_history_classes, not failed; the "
+        "generic mutation families do not run on the parametric-image reader (only the key-order family and the library's own header)",
         "the header-facts oracle of part 2 applies only where an independent strict scan of the text is unambiguous (no continuation/CR, each size-bearing key once, "
         "plain integer / {list} values); other accepted inputs are judged by data-file size and sanitizers only"]
     if audit:
